@@ -26,3 +26,6 @@ func VerifSilentLocks(s *SQLiteStore) []any {
 	}
 	return out
 }
+
+// VerifCheckpoint runs the store's own passive WAL checkpoint (what the background loop does once a minute).
+func VerifCheckpoint(s *SQLiteStore) error { return s.checkpointPassive() }
